@@ -3,6 +3,7 @@ import Driver.MD
 import Driver.Cmds
 import Driver.SpecCmd
 import Driver.EncCmd
+import Driver.CliCmd
 /-! Line-protocol driver: one command per input line, one output line per input line. -/
 open Drv
 
@@ -28,6 +29,8 @@ def dispatch (line : String) : String :=
   | "encode" :: a => cmdEncode a
   | "encstr" :: a => cmdEncStr a
   | "encval" :: a => cmdEncVal a
+  | "report" :: a => cmdReport a
+  | "flavor" :: a => cmdFlavor a
   | "ping" :: _ => "pong"
   | _ => "bad-cmd"
 
